@@ -94,13 +94,6 @@ def run(tier):
         jobs.append({"id": len(jobs), "history": steps, "model": h})
     vlib.log("[C15] %d histories (%d simulated, %d exhaustive)" % (len(jobs), len(hs), len(hs2)))
     res = vlib.run_pool(["modules"], [{"id": j["id"], "history": j["history"]} for j in jobs], workers=14, job_timeout=60)
-    # a history that did not answer in time is repeated alone before it counts as a hang (loaded machine)
-    slow = [j for j in jobs if res.get(j["id"], {}).get("status") == "hang"]
-    if slow:
-        again = vlib.run_pool(["modules"], [{"id": j["id"], "history": j["history"]} for j in slow], workers=2, job_timeout=300)
-        for j in slow:
-            if again.get(j["id"], {}).get("status") != "hang":
-                res[j["id"]] = again[j["id"]]
     evals = nontrivial = 0
     for j in jobs:
         r = res.get(j["id"])
